@@ -533,6 +533,26 @@ async fn run(lines: Vec<String>, prop: String, out: &mut Out) {
 						}
 					}
 				}
+				if prop == "C07" {
+					// size gate on the HTTP path, however the body is chunked and whatever whitespace it starts with
+					let all: Vec<u8> = chunks.concat();
+					let declared: Option<usize> = if w[3] == "none" { None } else { w[3].parse().ok() };
+					let over = all.len() > c.env.cfg.max_req as usize || declared.map(|d| d > c.env.cfg.max_req as usize).unwrap_or(false);
+					orc = Ok(());
+					if method == "POST" && ct_ok {
+						if over {
+							if st < 400 || !inv.is_empty() {
+								orc = Err(format!("body of {} bytes (declared {declared:?}) over max_request_body_size {} answered {st}, handlers run: {}", all.len(), c.env.cfg.max_req, inv.len()));
+							}
+						} else if st == 413 {
+							orc = Err(format!("in-limit body of {} bytes rejected as too large (limit {})", all.len(), c.env.cfg.max_req));
+						} else if let Plain::Obj { jsonrpc_ok: true, method: Some(m), id: PlainId::InDomain(_), .. } = plain(&all[all.iter().take_while(|b| b.is_ascii_whitespace()).count().min(all.len())..]) {
+							if m == "echo" && all.iter().take_while(|b| b.is_ascii_whitespace()).count() <= 127 && (st != 200 || inv.len() != 1) {
+								orc = Err(format!("in-limit echo call answered {st}, handlers run: {}", inv.len()));
+							}
+						}
+					}
+				}
 				out.count(&format!("http.{st}"));
 				out.line(line.clone(), o, orc, st == 200);
 			}
@@ -885,13 +905,32 @@ fn gen_c07(rng: &mut Rng, n: u64, lines: &mut Vec<String>) {
 				lines.push(format!("msg {}", hexs(&format!("{{\"jsonrpc\":\"2.0\",\"id\":1,\"method\":\"echo\",\"params\":\"{}\"}}", "p".repeat(pad as usize)))));
 			}
 		}
+		// HTTP: the same sizes as 2-3 chunks, with leading whitespace (counted!) in its own chunk or not,
+		// with / without / with a lying Content-Length
+		let ct = hexs("application/json");
+		for total in [mr as i64 - 1, mr as i64, mr as i64 + 1, mr as i64 + 40] {
+			let wsn = rng.range(0, 60) as i64;
+			let pad = total - 52 - wsn;
+			if pad < 0 {
+				continue;
+			}
+			let wsb: String = (0..wsn).map(|_| *rng.pick(&[' ', '\n', '\t', '\r'])).collect();
+			let req = format!("{{\"jsonrpc\":\"2.0\",\"id\":1,\"method\":\"echo\",\"params\":\"{}\"}}", "q".repeat(pad as usize));
+			let cut = rng.below(req.len() as u64 + 1) as usize;
+			let cl = match rng.below(3) { 0 => total.to_string(), _ => "none".to_string() };
+			lines.push(format!("http POST {ct} {cl} {} {} {}", hexs(&wsb), hex(&req.as_bytes()[..cut]), hex(&req.as_bytes()[cut..])));
+			lines.push(format!("http POST {ct} none {}", hex(format!("{wsb}{req}").as_bytes())));
+			let k = rng.below(wsb.len() as u64 + 1) as usize;
+			lines.push(format!("http POST {ct} none {} {}", hexs(&wsb[..k]), hex(format!("{}{req}", &wsb[k..]).as_bytes())));
+		}
+		lines.push(format!("http POST {ct} {} {}", mr + 1, hexs("{\"jsonrpc\":\"2.0\",\"id\":1,\"method\":\"echo\"}")));
 		lines.push(sentinel(1));
 	}
 }
 
 fn gen_c19(rng: &mut Rng, n: u64, lines: &mut Vec<String>) {
 	let cts = ["application/json", "application/json; charset=utf-8", "application/json;charset=utf-8", "application/json-rpc", "application/json-rpc;charset=utf-8", "application/json-rpc; charset=utf-8"];
-	let near = ["application/jsonx", "application/json ", " application/json", "application/json; charset=utf-16", "text/plain", "application/json;", "json", "application/json-rpcx", "application/json;  charset=utf-8", ""];
+	let near = ["application/jsonx", "application/json ", " application/json", "application/json; charset=utf-16", "text/plain", "application/json;", "json", "application/json-rpcx", "application/json;  charset=utf-8", "", "application/jsonp; charset=utf-8", "application/json-patch+json;charset=utf-8", "application/json-rpcx;charset=utf-8", "application/json; boundary=x; charset=utf-8", "text/plain; charset=utf-8", "application/jsonx;charset=utf-8", "application/json-rpc; charset=utf-8 ", "application/json-rpc ;charset=utf-8", "charset=utf-8", "application/json;charset=utf-8;", "application/json,application/json", "APPLICATION/JSONS"];
 	let methods = ["GET", "PUT", "DELETE", "HEAD", "OPTIONS", "PATCH", "TRACE", "CONNECT", "post", "Post"];
 	let mut cn = 0;
 	for i in 0..n {
@@ -910,6 +949,7 @@ fn gen_c19(rng: &mut Rng, n: u64, lines: &mut Vec<String>) {
 		// gate
 		if i % 4 == 0 {
 			lines.push(format!("http {} {} none {}", *rng.pick(&methods), ct(rng), hex(&body)));
+			lines.push(format!("http POST {} none {}", hexs(*rng.pick(&near)), hex(&body)));
 			lines.push(format!("http POST {} none {}", hexs(*rng.pick(&near)), hex(&body)));
 			lines.push(format!("http POST none none {}", hex(&body)));
 			lines.push(format!("http POST {},{} none {}", hexs("text/plain"), ct(rng), hex(&body)));
